@@ -385,6 +385,26 @@ static int probe_nullguard(void)
 	return WIFEXITED(st) && WEXITSTATUS(st) == 0;
 }
 
+/* does print_unicode fail on E2BIG (F27a repaired)?  "A" + U+20AC, UTF-8, 3 bytes */
+static int probe_e2big(void)
+{
+	char buf[3]; int n;
+	page_new(1, 2, 0x41); pg->text[1].unicode = 0x20AC;
+	n = vbi_print_page_region(pg, buf, 3, "UTF-8", 1, 0, 0, 0, 2, 1);
+	page_free();
+	return n == 0;
+}
+
+/* is U+0140 kept in UCS-2LE (F27b repaired)? */
+static int probe_atone(void)
+{
+	char buf[4]; int n;
+	page_new(1, 1, 0x140);
+	n = vbi_print_page_region(pg, buf, 4, "UCS-2LE", 1, 0, 0, 0, 1, 1);
+	page_free();
+	return n == 2 && buf[0] == 0x40 && buf[1] == 0x01;
+}
+
 /* ------------------------------------------------------------------ main */
 static int no_nul(const uint8_t *b, int n) { int i; for (i = 0; i < n; ++i) if (!b[i]) return 0; return 1; }
 
@@ -405,8 +425,8 @@ int main(void)
 			       VBI_DOUBLE_HEIGHT2, VBI_DOUBLE_SIZE2, VBI_EXPORT_TARGET_MEM, VBI_EXPORT_TARGET_ALLOC, VBI_EXPORT_TARGET_FP,
 			       VBI_EXPORT_TARGET_FD, VBI_EXPORT_TARGET_FILE, VBI_OPAQUE);
 		} else if (H_IS(0, "probe")) {
-			int wc, ng; ops_clear(); wc = probe_wideclip(); ng = probe_nullguard(); ops_clear();
-			printf("ok wideclip=%d nullguard=%d\n", wc, ng);
+			int wc, ng, eb, ao; ops_clear(); wc = probe_wideclip(); ng = probe_nullguard(); eb = probe_e2big(); ao = probe_atone(); ops_clear();
+			printf("ok wideclip=%d nullguard=%d e2big=%d atone=%d\n", wc, ng, eb, ao);
 		} else if (H_IS(0, "begin")) {
 			if (h_ntok != 5 || !(H_IS(1, "mem") || H_IS(1, "alloc") || H_IS(1, "fp") || H_IS(1, "file"))
 			    || !(H_IS(2, "null") || (NUM(2, v[0]) && v[0] >= 0 && v[0] <= (1 << 20)))
